@@ -126,6 +126,23 @@ fn main() {
             600000,
             move |tier| roll_case_of(tier, INS, outs, 48, 300, 1, TIE_CLASSES),
             move |c: &RollCase, obs: &mut Obs| {
+                // infinite elements are ordered values like any other for min / max / arg / rank; they are
+                // derived here (a quarter of the float cases) so that the stored case stays finite
+                let order_stat = !matches!(st, Stat::MinMaxNorm | Stat::ZScore);
+                if order_stat && matches!(c.tin, InT::F64 | InT::OptF64) && (c.w + c.x.len()) % 4 == 0 {
+                    let mut c2 = c.clone();
+                    for (i, v) in c2.x.iter_mut().enumerate() {
+                        if v.is_some() {
+                            match (i * 3 + c.w) % 5 {
+                                0 | 1 => *v = Some(f64::INFINITY),
+                                2 => *v = Some(f64::NEG_INFINITY),
+                                _ => {},
+                            }
+                        }
+                    }
+                    obs.class("infinite_elements");
+                    check1(&c2, st, true, obs)?;
+                }
                 check1(c, st, true, obs)?;
                 classify_c03(c, obs);
                 Ok(())
@@ -144,7 +161,7 @@ fn main() {
         ));
     }
     const WIDE_INS: &[InT] = &[InT::I64, InT::OptI32];
-    for st in [Stat::Min, Stat::Max, Stat::ArgMin, Stat::ArgMax, Stat::Rank { pct: false, rev: false }, Stat::Rank { pct: true, rev: true }] {
+    for st in [Stat::Min, Stat::Max, Stat::ArgMin, Stat::ArgMax, Stat::Rank { pct: false, rev: false }, Stat::Rank { pct: true, rev: true }, Stat::MinMaxNorm] {
         p.add(sub(
             &format!("wide_integers:ts_v{}", st.name()),
             4000,
